@@ -5,7 +5,6 @@ from vlib.engine import Prop, Failure, SAN_FLAGS
 from translate import c15_abc_tables
 
 RB_WITNESS = "<ABCDEFGHIJKLMNOPQRSTUVWXYZ>:<A>aabcdefghijklmnopqrstuvwxyz"
-RF_TEXT_KEY = "C15:esl_msa_ReasonableRF:text-useconsseq-null-abc"
 
 
 def hx(b):
@@ -48,6 +47,7 @@ def wuss_pairs(ss):
 ABC = {"rna": (4, 18, "ACGU-RYMKSWHBVDN*~"), "dna": (4, 18, "ACGT-RYMKSWHBVDN*~"), "amino": (20, 29, "ACDEFGHIKLMNPQRSTVWY-BJZOUX*~")}
 
 DEGEN = {}
+INMAP = {}
 
 def is_residue_code(abc, x):
     K, Kp, _ = ABC[abc]
@@ -216,7 +216,9 @@ class C15(Prop):
         "markFragments_spec", "reverseComplement_spec", "reverseComplement_rejects", "addComment_addGF_spec",
         "simple_pk_roundtrip", "ct2simplewuss_total", "ct2simplewuss_ok_of_few_pk", "wuss_ct_simplewuss_ct_total",
         "wuss2ct_iff_class_labelling", "wussReverse_pairs", "reverseComplement_ss_pairs",
-        "columnSubset_ok_of_few_pk", "reasonableRF_cons_shape_partial", "wussNopseudo_pairs", "wussFull_total", "flushLeftInserts_inplace", "kh_roundtrip_pairs", "transformed_wellformed", "generated_wf_side_conditions")]
+        "columnSubset_ok_of_few_pk", "reasonableRF_cons_shape_partial", "wussNopseudo_pairs", "wussFull_total", "flushLeftInserts_inplace", "kh_roundtrip_pairs", "transformed_wellformed", "generated_wf_side_conditions",
+        # round 6
+        "reasonableRF_cons_no_alphabet", "reasonableRF_cons_digital", "reasonableRF_cons_text_eq_digital", "reasonableRF_cons_text_shape", "generated_text_cells", "reasonableRF_threshold_exact")]
     claimed = True
     technique = ("Lean 4 proof about an executable hand model of esl_msa.c / esl_wuss.c (in-place compaction loop = filter-by-mask on every aligned field, well-formedness invariants, "
                  "tag-table rebuild of SequenceSubset, mode-conversion and reverse-complement identities over alphabet tables regenerated from the tree, 27-stack WUSS reader = 27 Dyck recognisers, "
@@ -248,8 +250,9 @@ class C15(Prop):
                   "esl_msa_Checksum = Jenkins hash of the concatenated rows; ConvertDegen2X / SymConvert / SetDefaultWeights; ReasonableRF (useconsseq=FALSE) shape; esl_sq_Digitize/Textize/"
                   "ReverseComplement/ConvertDegen2X. Round 2: pk_roundtrip (invariant over the rb[]/auxpk lettering loop). "
                   "Remaining: the exact predicate of ct2wuss_ok_iff is the lettering run itself (no closed form: a letter is re-used only past its right bound and letters grow within a batch); "
-                  "ReasonableRF: only the shape of the line is a theorem (thresholds / counts are floating point, L0; useconsseq=TRUE in text mode dereferences msa->abc == NULL: KNOWN FINDING C15:esl_msa_ReasonableRF:text-useconsseq-null-abc, witness in the corpus, "
-                  "patch proposed in /var/tmp/fixes-proposed/C15-reasonablerf-text-consseq.patch; the generator never asks for it). Trusted: Lean kernel + propext/Classical.choice/Quot.sound; fidelity of the hand model is checked, not proved, by the differential run; float thresholds of MarkFragments are evaluated by the driver (L0).")
+                  "ReasonableRF: the threshold rule is a theorem in exact arithmetic (reasonableRF_threshold_exact, over Q with the code's comparison r > 0 && r/totwgt >= symfrac); in binary64/binary32 (what the driver runs) only the shape "
+                  "of the line is a theorem (L0). useconsseq=TRUE as repaired by 0c757a4 is modelled in every branch: no alphabet -> eslEINVAL (reasonableRF_cons_no_alphabet), text branch with a caller-supplied alphabet = digital branch "
+                  "on the digitized alignment (reasonableRF_cons_text_eq_digital), compared exactly (harness lends an alphabet to a text alignment for the call). Trusted: Lean kernel + propext/Classical.choice/Quot.sound; fidelity of the hand model is checked, not proved, by the differential run; float thresholds of MarkFragments are evaluated by the driver (L0).")
     diverge_is_violation = True
     fault_is_output = True       # faults are classified by monitor() (known finding vs. new)
     trusted_base = ["hand model of esl_msa.c/esl_wuss.c tied by exact field-by-field differential run (h_msaops.c, ASan+UBSan build of the working tree)",
@@ -260,7 +263,8 @@ class C15(Prop):
                    "MarkFragments thresholds evaluated in binary32/binary64 by the driver (L0); esl_msa_Copy modelled through Create+Copy only",
                    "esl_msa_Compare model: an optional per-sequence array is non-NULL iff one of its entries is (checked by the harness on every compared alignment, 'repinv='); "
                    "esl_DCompare_old / esl_FCompare_old are parameters of the model and the theorems, evaluated in binary64/binary32 by the driver (L0)",
-                   "esl_msa_ReasonableRF: both modes are modelled in digital mode, useconsseq=FALSE also in text mode (weight arithmetic a parameter: binary64 weights, binary32 counts in the driver, L0); useconsseq=TRUE on a TEXT alignment dereferences msa->abc == NULL in the C code (known finding, one witness case in the corpus; not generated otherwise)",
+                   "esl_msa_ReasonableRF: both modes are modelled in digital and text mode (weight arithmetic a parameter: binary64 weights, binary32 counts in the driver, L0; exact over Q in the theorems); the text branch of useconsseq=TRUE is exercised "
+                   "with an alphabet lent by the harness and only on rows whose letters belong to it (a foreign letter makes esl_abc_FCount read degen[255]: caller contract, model = fault, not generated)",
                    "esl_sq.c: FetchFromMSA, Digitize, Textize, ReverseComplement, ConvertDegen2X are modelled on the observable content of the sequence object (name/acc/desc/source, residues, ss, extra "
                    "markup, start/end, mode)",
                    "not modelled: esl_msa_Sample, esl_msa_GuessAlphabet, esl_msa_Format* (printf wrappers over the modelled Set*), esl_msa_Expand/Sizeof, esl_sq_Copy/Compare/Grow/Block*/CountResidues/Checksum"]
@@ -277,6 +281,7 @@ class C15(Prop):
             _, nm, _ty, K, Kp = lines[k].split()
             ABC[nm] = (int(K), int(Kp), "".join(chr(int(x)) for x in lines[k + 1].split()[1:]))
             DEGEN[nm] = ([[c == "1" for c in row] for row in lines[k + 4].split()[1:]], [int(x) for x in lines[k + 5].split()[1:]])
+            INMAP[nm] = [int(x) for x in lines[k + 2].split()[1:]]
         return {"EaselModel/Msa/AbcTables.lean": c15_abc_tables.to_lean(txt)}
 
     def canonical(self, line):
@@ -529,8 +534,15 @@ class C15(Prop):
                 ops += ["symconvert old=%s new=%s" % (hx(olds), hx(news)), "dump", "compare", "checksum"]
             if rng.random() < 0.25:
                 ops += ["dump", "reasonablerf symfrac=" + dbits(rng.choice([0.5, 0.0, 1.0, 0.3, 0.75, rng.random(), 1.5, -1.0]))
-                        + (" cons=1" if digital and rng.random() < 0.6 else "")]
+                        + self.rf_cons_arg(rng, mode, digital)]
         return {"name": "cmp%d" % idx, "ops": ops, "sticky": sticky}
+
+    def rf_cons_arg(self, rng, mode, digital):
+        """useconsseq for esl_msa_ReasonableRF: digital: the alignment's own alphabet; text: no alphabet (eslEINVAL, 0c757a4) or an
+        alphabet lent by the caller (only one every letter of the rows belongs to: the rows were drawn from <mode>'s symbols)"""
+        if rng.random() >= 0.6: return ""
+        if digital or mode == "text" or rng.random() < 0.25: return " cons=1"
+        return " cons=1 abc=" + mode
 
     def sq_case(self, rng, idx):
         """esl_sq.c conversions of a sequence taken from an alignment: Digitize / Textize / ReverseComplement / ConvertDegen2X"""
@@ -615,10 +627,15 @@ class C15(Prop):
             # regression (fixed by c71354f): esl_sq_ReverseComplement once freed xr[] but kept nxr > 0 (NULL deref in esl_sq_Destroy)
             {"name": "sq-revcomp-xr-witness", "ops": ["new nseq=1 alen=4", "sq i=0 seq=" + hx("AC-U"), "gr tag=" + hx("CSA") + " i=0 v=" + hx("12.4"), "dump", "fetch i=0 keep=1", "sqrevcomp", "sqdump"],
              "sticky": 3},
-            # KNOWN FINDING (patch proposed: /var/tmp/fixes-proposed/C15-reasonablerf-text-consseq.patch): esl_msa_ReasonableRF(text alignment,
-            # symfrac, useconsseq=TRUE, rf) dereferences msa->abc == NULL in its first statement; the generator never asks for it
+            # regression (fixed by 0c757a4): esl_msa_ReasonableRF(text alignment, symfrac, useconsseq=TRUE, rf) once dereferenced msa->abc == NULL;
+            # with a caller-supplied alphabet its text branch wrote rfline[apos-1] and never reset counts[] between columns
             {"name": "reasonablerf-text-consseq-witness", "ops": ["new nseq=2 alen=4", "sq i=0 seq=" + hx("ACGU"), "sq i=1 seq=" + hx("AC-U"), "dump",
-                                                                 "reasonablerf symfrac=" + dbits(0.5) + " cons=1"], "sticky": 3, "known_key": RF_TEXT_KEY},
+                                                                 "reasonablerf symfrac=" + dbits(0.5) + " cons=1"], "sticky": 3},
+            {"name": "reasonablerf-text-consseq-lent", "ops": ["new nseq=3 alen=5", "sq i=0 seq=" + hx("ACGU-"), "sq i=1 seq=" + hx("gC-Un"), "sq i=2 seq=" + hx("gc.y~"), "dump",
+                                                              "reasonablerf symfrac=" + dbits(0.5) + " cons=1 abc=rna", "reasonablerf symfrac=" + dbits(0.0) + " cons=1 abc=rna",
+                                                              "reasonablerf symfrac=" + dbits(1.0) + " cons=1 abc=dna", "reasonablerf symfrac=" + dbits(0.5) + " cons=1 abc=amino",
+                                                              "reasonablerf symfrac=" + dbits(0.5) + " cons=0 abc=rna", "digitize abc=rna", "dump", "reasonablerf symfrac=" + dbits(0.5) + " cons=1",
+                                                              "textize", "dump", "reasonablerf symfrac=" + dbits(0.5) + " cons=1", "reasonablerf symfrac=" + dbits(0.5) + " cons=1 abc=rna"], "sticky": 4},
             {"name": "sq-basics", "ops": ["new nseq=1 alen=6", "sq i=0 seq=" + hx("AC-UnX") + " ss=" + hx("<.>..."), "dump", "fetch i=0 keep=1", "sqdump", "sqrevcomp", "sqdump", "sqrevcomp", "sqdump",
                                           "sqdigitize abc=rna", "sqdump", "sqdegen2x", "sqdump", "sqrevcomp", "sqdump", "sqtextize", "sqdump", "sqdigitize abc=amino", "sqdump", "sqrevcomp", "sqdump"], "sticky": 2},
             {"name": "compare-basics", "ops": ["new nseq=2 alen=3", "sq i=0 seq=" + hx("ACG") + " wgt=" + dbits(1.0), "sq i=1 seq=" + hx("A-G") + " wgt=" + dbits(2.0), "col name=" + hx("x") + " haswgts=1",
@@ -720,7 +737,7 @@ class C15(Prop):
                 if f: return f
             elif name == "reasonablerf":
                 if A is None or not freshA or not A.ok: continue
-                f = self.check_rf(A, kv["symfrac"], l, kv.get("cons") == "1")
+                f = self.check_rf(A, kv["symfrac"], l, kv.get("cons") == "1", kv.get("abc"))
                 if f: return f
             elif name in ("colsubset", "minimgaps", "minimgapstext", "nogaps", "nogapstext", "seqsubset", "clone", "copy", "digitize",
                           "textize", "revcomp", "flushleft", "markfrag", "markfragold", "rbb", "degen2x", "symconvert", "defwgts"):
@@ -892,40 +909,46 @@ class C15(Prop):
         st["rc_prev"] = None
         return None
 
-    def check_rf(self, d, sbits, l, use_cons=False):
-        """esl_msa_ReasonableRF(msa, symfrac, FALSE): 'x' where the weighted fraction of residues (gaps in the denominator, missing
-        data ignored) reaches symfrac and at least one residue is present, '.' elsewhere"""
-        if use_cons and not d.digital: return None if l == "bad-op" else Failure("monitor", "ReasonableRF(useconsseq) on a text alignment: " + l[:40])
+    def check_rf(self, d, sbits, l, use_cons=False, lent=None):
+        """esl_msa_ReasonableRF(msa, symfrac, useconsseq): 'x' (or, with useconsseq, the symbol of the canonical residue with the
+        largest weighted count) where the weighted fraction of residues (gaps in the denominator, missing data ignored in digital
+        mode) reaches symfrac and at least one residue is present, '.' elsewhere. useconsseq on an alignment without alphabet:
+        eslEINVAL (0c757a4); a text alignment with a caller-supplied alphabet <lent>: letters are counted through inmap[]."""
+        abc = d.abc if d.digital else (lent if lent in ABC else None)
+        if use_cons and abc is None:
+            return None if l == "einval exception" else Failure("monitor", "ReasonableRF(useconsseq) on an alignment without alphabet must throw eslEINVAL: " + l[:40])
         if not l.startswith("ok ss="): return Failure("monitor", "esl_msa_ReasonableRF failed: " + l[:60])
         symfrac = bits2d(sbits); got = unhx(l[6:]) or b""
         want = bytearray()
         for c in range(d.alen):
             r = tot = 0.0
-            cnt = [0.0] * (ABC[d.abc][0] if d.digital else 0)       # binary32 counts of esl_abc_FCount
+            cnt = [0.0] * (ABC[abc][0] if use_cons else 0)       # binary32 counts of esl_abc_FCount
             for i in range(d.nseq):
                 x = d.sq[i]["row"][c]; w = bits2d(d.sq[i]["wgt"])
-                if d.digital:
-                    K, Kp, _ = ABC[d.abc]
-                    if use_cons and is_residue_code(d.abc, x):
-                        try: wt = f32(w)
-                        except OverflowError: wt = float("inf") if w > 0 else float("-inf")
-                        if x < K: cnt[x] = f32x(cnt[x] + wt)
-                        else:
-                            deg, ndeg = DEGEN[d.abc]
-                            for y in range(K):
-                                if deg[x][y]: cnt[y] = f32x(cnt[y] + f32x(wt / float(ndeg[x])))
-                    if is_residue_code(d.abc, x): r += w; tot += w
-                    elif x == K: tot += w
+                if d.digital: res = is_residue_code(abc, x); gap = x == ABC[abc][0]
                 else:
-                    if x < 128 and chr(x).isalpha(): r += w; tot += w
-                    else: tot += w
+                    res = x < 128 and chr(x).isalpha(); gap = not res
+                    if res and use_cons:
+                        x = INMAP[abc][x]
+                        if not is_residue_code(abc, x): return Failure("monitor", "generator: letter outside the lent alphabet")
+                if use_cons and res:
+                    K = ABC[abc][0]
+                    try: wt = f32(w)
+                    except OverflowError: wt = float("inf") if w > 0 else float("-inf")
+                    if x < K: cnt[x] = f32x(cnt[x] + wt)
+                    else:
+                        deg, ndeg = DEGEN[abc]
+                        for y in range(K):
+                            if deg[x][y]: cnt[y] = f32x(cnt[y] + f32x(wt / float(ndeg[x])))
+                if res: r += w; tot += w
+                elif gap: tot += w
             try: cons = r > 0.0 and r / tot >= symfrac
             except ZeroDivisionError: cons = r > 0.0 and (float("inf") if r > 0 else float("nan")) >= symfrac
             if cons and use_cons:
                 best = 0
                 for k in range(1, len(cnt)):
                     if cnt[k] > cnt[best]: best = k
-                want.append(ord(ABC[d.abc][2][best]))
+                want.append(ord(ABC[abc][2][best]))
             else: want.append(0x78 if cons else 0x2e)
         if bytes(want) != got: return Failure("monitor", "esl_msa_ReasonableRF(symfrac=%r): %r, the weighted-occupancy rule gives %r" % (symfrac, got, bytes(want)))
         return None
